@@ -46,7 +46,10 @@ func (d *Driver) demoteCbAfter(inst, gen int, step uint64) *CbEvt {
 	return nil
 }
 
-func (d *Driver) judgeC03() { d.judgeC03as("C03") }
+func (d *Driver) judgeC03() {
+	d.judgeC03as("C03")
+	d.judgeC03numeric("C03")
+}
 
 // judgeC03as runs the C03 decision procedure and files verdicts under prop (C13 reuses it
 // for "a leader whose record was tampered with is demoted as in C03").
@@ -204,6 +207,69 @@ func (d *Driver) judgeC03as(prop string) {
 				}
 				break
 			}
+		}
+	}
+}
+
+// judgeC03numeric: clause 2 in its numeric form, independent of how many attempts the library
+// chose to issue: if from the start S of a successful refresh (itself completed within H) on
+// the store is unreachable for the instance's refreshes - a fault window of the plan covers
+// every moment from the next tick to S+3H+3T - the instance must have stopped claiming
+// leadership by S + 3H + 3T.
+func (d *Driver) judgeC03numeric(prop string) {
+	p := d.plan
+	T := hbTimeout(p.H)
+	for _, t := range d.terms() {
+		if t.Obj == nil || t.Obj.dead {
+			continue
+		}
+		var lastOK *Op
+		for _, op := range d.h.Ops {
+			if op.Inst != t.Inst || op.Gen != t.Gen || op.Kind != "update" || !strings.HasPrefix(op.Caller, "heartbeatLoop") || op.SInvoke < t.SStart {
+				continue
+			}
+			if t.Fall != nil && op.SInvoke > t.SEnd {
+				break
+			}
+			if op.Applied && op.OK && op.Err == nil && op.TRet-op.TInvoke <= p.H {
+				lastOK = op
+			}
+		}
+		if lastOK == nil {
+			continue
+		}
+		s0 := lastOK.TInvoke
+		dl := s0 + 3*p.H + 3*T
+		if dl+time.Second >= d.endAt {
+			continue
+		}
+		// a window fault that makes every refresh from the next tick on fail
+		covered := false
+		for i := range p.Faults {
+			f := &p.Faults[i]
+			switch f.Kind {
+			case FHang, FDropReq, FError, FPartition, FDropResp:
+			default:
+				continue
+			}
+			if f.OpN > 0 || (f.Prob > 0 && f.Prob < 1) || (f.Inst >= 0 && f.Inst != t.Inst) || (f.Op != "" && f.Op != "update") {
+				continue
+			}
+			if f.From <= s0+p.H && f.From > lastOK.TApply && (f.To == 0 || f.To >= dl) {
+				covered = true
+			}
+		}
+		if !covered || d.stopInvokedBefore(t.Inst, t.Gen, dl+time.Millisecond) {
+			continue
+		}
+		d.judgedInc(prop)
+		slack := d.stallIn(t.Inst, s0, dl+time.Second) + time.Millisecond
+		if t.Fall == nil || t.End > dl+slack {
+			when := "never"
+			if t.Fall != nil {
+				when = fmt.Sprintf("at %v", t.End)
+			}
+			d.h.violate(prop, "no-demotion-within-3H+3T-of-last-successful-refresh", fmt.Sprintf("i%d.%d: last successful refresh started at %v, store unreachable for its refreshes from then on; must stop claiming leadership by %v (3H+3T) but did so %s", t.Inst, t.Gen, s0, dl, when), dl, 0)
 		}
 	}
 }
